@@ -49,3 +49,13 @@ void h_bounded_positive_denominator(void)
 }
 void h_K_ossps_clamp_tail(void) { long n; float* p = mk_seq(&n); K_ossps_clamp_tail(p, p + n, nondet_double()); }
 void h_K_relaxation(void) { K_relaxation(nondet_int(), nondet_int(), nondet_int()); }
+
+/* ---- one-voxel additive update ---- */
+#include "K_ossps_update_voxel.c"
+void h_K_ossps_update_voxel(void)
+{
+  g_nops = 0; g_relax_calls = 0;
+  V_numerator_ptr = nondet_float(); V_precomputed_denominator_ptr = nondet_float(); V_current_image_estimate = nondet_float();
+  g_G = V_numerator_ptr; g_P = V_precomputed_denominator_ptr; g_X = V_current_image_estimate;
+  K_ossps_update_voxel(nondet_bool(), nondet_bool(), nondet_int(), nondet_int(), nondet_int(), nondet_bool());
+}
